@@ -8,7 +8,10 @@ EXTRA = {'C03-B': ['C17'], 'C05-B': ['C02', 'C17'], 'C16-B': ['C19'], 'C11-B': [
          'C11-C': ['C17'], 'C10-C': ['C13', 'C18'], 'C03-C': ['C18'], 'C01-D': ['C05', 'C17'], 'C09-F': ['C18'], 'C15-E': ['C16'],
          'C11-F': ['C17'], 'C17-E': ['C03'], 'C14-J': ['C05'], 'C15-G': ['C19'], 'C15-H': ['C16'], 'C11-H': ['C09'], 'C16-H': ['C19'],
          'C02-K': ['C19'], 'C03-K': ['C09'], 'C13-L': ['C11'], 'C14-K': ['C12'], 'C15-L': ['C07'], 'C08-K': ['C11'],
-         'C15-N': ['C18'], 'C17-M': ['C16'], 'C18-M': ['C09'], 'C13-N': ['C06'], 'C15-M': ['C16'], 'C17-P': ['C16'], 'C01-O': ['C10'], 'C07-Q': ['C04'], 'C08-Q': ['C09'], 'C08-R': ['C12'], 'C17-Q': ['C11'], 'C07-E': ['C04']}
+         'C15-N': ['C18'], 'C17-M': ['C16'], 'C18-M': ['C09'], 'C13-N': ['C06'], 'C15-M': ['C16'], 'C17-P': ['C16'], 'C01-O': ['C10'], 'C07-Q': ['C04'], 'C08-Q': ['C09'], 'C08-R': ['C12'], 'C17-Q': ['C11'], 'C07-E': ['C04'],
+         # round 10 (one change per property): the check of the property whose clause the change breaks
+         'C01-S': ['C02', 'C03'], 'C18-S': ['C10'], 'C06-S': ['C04', 'C07'], 'C09-S': ['C08'], 'C11-S': ['C10', 'C07'], 'C13-S': ['C02', 'C05'],
+         'C15-S': ['C19'], 'C07-S': ['C04'], 'C17-S': ['C01', 'C10'], 'C04-S': ['C06', 'C13']}
 # changes whose demonstration no longer fails on the repaired tree: the defect they relied on next to their own edit was fixed
 ABSORBED = {'C02-G': 'F28 (318b962): the wrap test which this change altered was replaced by counting the records; the patch no longer applies',
             'C04-F': 'F22 (add28c3): the marker is saved before the payload of a skipped BigMessage is discarded',
